@@ -40,7 +40,7 @@ impl Callbacks for Exporter {
             let krate = tcx.crate_name(LOCAL_CRATE).to_string();
             let only = std::env::var("VERIF_CRATES").unwrap_or_default();
             if only.is_empty() || only.split(',').any(|c| c == krate) {
-                let mut cx = Cx { tcx, adts: BTreeMap::new(), adt_queue: Vec::new() };
+                let mut cx = Cx { tcx, imut_direct: false, adts: BTreeMap::new(), adt_queue: Vec::new() };
                 let j = cx.export_crate();
                 let mut out = String::new();
                 j.write(&mut out);
@@ -55,6 +55,7 @@ impl Callbacks for Exporter {
 
 struct Cx<'tcx> {
     tcx: TyCtxt<'tcx>,
+    imut_direct: bool,
     adts: BTreeMap<String, J>,
     adt_queue: Vec<DefId>,
 }
@@ -180,6 +181,13 @@ impl<'tcx> Cx<'tcx> {
                     let mut seen = BTreeSet::new();
                     self.imut_walk(fty, &mut leaves, &mut seen, 0);
                     fo = fo.f("imut", J::Arr(leaves.into_iter().map(J::s).collect()));
+                    let mut dl = BTreeSet::new();
+                    let mut seen2 = BTreeSet::new();
+                    self.imut_direct = true;
+                    // depth starts at 1 so that a field whose type *is* a local ADT is reported as a link
+                    self.imut_walk(fty, &mut dl, &mut seen2, 1);
+                    self.imut_direct = false;
+                    fo = fo.f("imut_direct", J::Arr(dl.into_iter().map(J::s).collect()));
                     fo = fo.f("vis", J::s(format!("{:?}", f.vis)));
                 }
                 fields.push(fo.done());
@@ -243,12 +251,29 @@ impl<'tcx> Cx<'tcx> {
                     leaves.insert(outer.unwrap_or_else(|| "core::cell::UnsafeCell".to_string()));
                     return;
                 }
+                if did.is_local() && self.imut_direct && depth > 0 {
+                    leaves.insert(format!("local:{}", self.dp(did)));
+                    return;
+                }
                 let next_outer = if did.is_local() {
                     None
                 } else if outer.is_some() {
                     outer.clone()
                 } else {
-                    Some(self.dp(did))
+                    // plain owning containers are transparent: the leaf is named after the first
+                    // extern ADT inside them that is not a container
+                    let p = self.dp(did);
+                    let transparent = p == "std::boxed::Box"
+                        || p == "std::vec::Vec"
+                        || p == "core::option::Option"
+                        || p == "core::result::Result"
+                        || p == "core::marker::PhantomData"
+                        || p.starts_with("alloc::raw_vec::")
+                        || p.starts_with("core::ptr::")
+                        || p.starts_with("core::mem::")
+                        || p.starts_with("std::collections::")
+                        || p.starts_with("alloc::collections::");
+                    if transparent { None } else { Some(p) }
                 };
                 for v in def.variants().iter() {
                     for f in v.fields.iter() {
